@@ -43,20 +43,22 @@ def main():
         sh(f"git -C /repo worktree remove --force {wt}")
     ok = "1008 passed" in res.get("tests", "") and res["demo_with"] != 0 and res["demo_without"] == 0
     res["confirmed"] = ok
-    # run checks against /repo with the change applied
-    st = sh("git -C /repo status --porcelain").stdout.strip()
-    assert not st, "repo dirty: " + st
-    r = sh(f"git -C /repo apply {wt}.diff")
-    assert r.returncode == 0, r.stderr
+    # run the checks against a scratch worktree with the change applied (VERIF_REPO), so that
+    # /repo itself is never touched and several candidates can be tried at once
+    wt2 = tempfile.mkdtemp(prefix="seedrun-", dir="/tmp")
+    os.rmdir(wt2)
+    sh(f"git -C /repo worktree add -q --detach {wt2} HEAD")
     try:
+        r = sh(f"git -C {wt2} apply {wt}.diff")
+        assert r.returncode == 0, r.stderr
         for c in checks:
             t = time.time()
-            r = sh(f"cd /verif && ./check {c} --tier quick")
+            r = sh(f"cd /verif && VERIF_EVIDENCE_DIR=/tmp/seed-evidence VERIF_REPLAY_DIR=/tmp/seed-replays VERIF_REPO={wt2} ./check {c} --tier quick")
             res[f"check_{c}"] = dict(exit=r.returncode, wall=round(time.time()-t, 1),
                                     tail=[l[:260] for l in r.stdout.strip().splitlines()[-4:]],
                                     err=r.stderr[-300:] if r.returncode == 2 else "")
     finally:
-        sh("git -C /repo checkout -- . && git -C /repo clean -fdq statham")
+        sh(f"git -C /repo worktree remove --force {wt2}")
         os.unlink(f"{wt}.diff")
     print(json.dumps(res, indent=1))
 
